@@ -893,7 +893,8 @@ pub fn exec_step(w: &mut World, s: &mut Session, step: &Step) -> Result<(), Viol
                             }
                             return Err(viol("C02", "write-count", format!("write of {} bytes at {} returned {}", max_ok, h.pos, n), step_no));
                         }
-                        if (h.pos % cluster) + n as u64 > cluster {
+                        if done == 0 && (h.pos % cluster) + data.len() as u64 > cluster && h.pos % cluster != 0 {
+                            // the caller's write starts inside a cluster and continues into the next one
                             w.stats.write_cross_cluster += 1;
                         }
                         let node = &mut w.model.nodes[h.node];
